@@ -538,7 +538,9 @@ class _BooleanExpression(_PatternExpression):
         self.operands = list(operands)
         for arg in self.operands:
             if not hasattr(self, "root_types"):
-                self.root_types = arg.root_types
+                # (a set of our own: it is narrowed / widened below, and the
+                # operand's set is the operand's)
+                self.root_types = set(arg.root_types)
             elif operator == "AND":
                 self.root_types &= arg.root_types
             else:
@@ -645,7 +647,7 @@ class ParentheticalExpression(_PatternExpression):
     def __init__(self, exp):
         self.expression = exp
         if hasattr(exp, "root_types"):
-            self.root_types = exp.root_types
+            self.root_types = set(exp.root_types)
 
     def __str__(self):
         return "(%s)" % self.expression
